@@ -104,6 +104,39 @@ func printable(r *rec) bool {
 	return ok
 }
 
+// endsWithBareFunc reports whether the printed form of the type e ends with
+// a function type without result.
+func endsWithBareFunc(e ast.Expression) bool {
+	for {
+		switch t := e.(type) {
+		case *ast.FuncType:
+			if len(t.Result) == 0 {
+				return true
+			}
+			if len(t.Result) == 1 && t.Result[0].Ident == nil && t.Result[0].Type != nil {
+				e = t.Result[0].Type
+				continue
+			}
+			return false
+		case *ast.SliceType:
+			e = t.ElementType
+		case *ast.ArrayType:
+			e = t.ElementType
+		case *ast.MapType:
+			e = t.ValueType
+		case *ast.ChanType:
+			e = t.ElementType
+		case *ast.UnaryOperator:
+			if t.Op != ast.OperatorPointer {
+				return false
+			}
+			e = t.Expr
+		default:
+			return false
+		}
+	}
+}
+
 func isOperator(e ast.Expression) bool {
 	switch e.(type) {
 	case *ast.UnaryOperator, *ast.BinaryOperator:
@@ -272,6 +305,9 @@ var fixedExprs = []string{
 	"+a + +b", "a+ +b", "*p * *q", "a & &b == c", "<-c + 1", "<-(c + 1)", "(<-c) + 1", "-x.y", "(-x).y", "-f(x)", "(-f)(x)",
 	"(a + b).c", "(a + b)[i]", "(a + b)(c)", "(*p).x", "*p.x", "(&x).y", "(a + b)[1:2]", "(a + b).(T)", "(<-c)(x)",
 	"a < b == c > d", "a % b / c", "a | b ^ c", "a ^ b | c", "a &^ b & c", "((a))", "((a + b)) * c",
+	// conversions to a type whose printed form ends with a function type without result; a tag with a backquote
+	"([]func())(f)", "(map[string]func())(m)", "(func() func())(f)", "([2]chan func())(x)", "struct { a int \"x`y\" }{}",
+	"func() (<-chan int)", "func(f func() (<-chan T)) (<-chan int)", "([]func() int)(f)", "(func())(f)",
 }
 
 var fixedTmplExprs = []string{
@@ -544,6 +580,29 @@ func init() {
 					if y.kind == "Call" && reNumDots.MatchString(ys) {
 						blame, class = "number-literal-before-dot-ambiguous", 3
 					}
+					if c, ok := y.node.(*ast.Call); ok && y.kind == "Call" {
+						parens := false // Call.String writes the callee between parentheses
+						switch fn := c.Func.(type) {
+						case *ast.UnaryOperator:
+							parens = fn.Op == ast.OperatorPointer || fn.Op == ast.OperatorReceive
+						case *ast.FuncType:
+							parens = len(fn.Result) == 0
+						case *ast.ChanType:
+							parens = true
+						}
+						if !parens && endsWithBareFunc(c.Func) {
+							// ([]func())(f) is printed []func()(f): the arguments are read as the result of the function type
+							blame, class = "conversion-to-type-ending-in-func-ambiguous", 3
+						}
+					}
+					if st, ok := y.node.(*ast.StructType); ok && y.kind == "StructType" {
+						for _, f := range st.Fields {
+							if strings.Contains(f.Tag, "`") {
+								// Field.String writes the tag between backquotes whatever it contains
+								blame, class = "struct-tag-with-backquote-ambiguous", 3
+							}
+						}
+					}
 					for _, k := range y.kids {
 						for i, ch := range k.kids {
 							if !ch.isNode {
@@ -577,7 +636,14 @@ func init() {
 							case class < 2 && op && k.name == "Expr" && y.kind != "UnaryOperator" && y.kind != "Call":
 								blame, class = "drops-parens-of-operator-operand", 2
 							case class < 2 && y.kind == "ChanType" && ch.kind == "ChanType":
-								blame, class = "chan-of-chan-ambiguous", 2
+								// the known finding is chan (<-chan T) only; the other pairs of directions have their own signature
+								oc, _ := y.node.(*ast.ChanType)
+								ic, _ := ch.node.(*ast.ChanType)
+								if oc != nil && ic != nil && oc.Direction == ast.NoDirection && ic.Direction == ast.ReceiveDirection {
+									blame, class = "chan-of-chan-ambiguous", 2
+								} else if oc != nil && ic != nil {
+									blame, class = fmt.Sprintf("chantype-%d-of-chantype-%d", oc.Direction, ic.Direction), 2
+								}
 							case class < 1 && (ch.kind == "FuncType" || ch.kind == "ChanType"):
 								blame, class = y.kind+"-"+k.name+"-"+ch.kind, 1
 							}
@@ -708,6 +774,19 @@ func init() {
 			tryExpr(s, true)
 		}
 		for _, s := range fixedTmplExprs {
+			tryExpr(s, true)
+		}
+		// the boundary shapes of the primary-expression grammar
+		for _, s := range xFixedSources {
+			// sources that the parser accepts and the type checker always rejects (a selector on a
+			// slice type, a 3-index slicing without indexes) do not survive and are not valid source
+			if s == "([]int).x" || s == "a[::]" {
+				continue
+			}
+			tryExpr(s, false)
+			tryExpr(s, true)
+		}
+		for _, s := range xFixedTmplSources {
 			tryExpr(s, true)
 		}
 		g := newGen(c.Rng)
